@@ -355,6 +355,17 @@ def sp_jv(eng, args, kw):
     return CX(SV(fre(*a), 'real'), SV(fim(*a), 'real'))
 
 
+def ufunc(f):
+    def g(eng, args, kw):
+        if args and isinstance(args[0], NDArr):
+            return NDArr(mapnd(lambda v: f(eng, [v] + list(args[1:]), kw), args[0].data))
+        return f(eng, args, kw)
+    return g
+
+
+np_log, np_exp, np_cos, np_sin, np_angle = (ufunc(np_log), ufunc(np_exp), ufunc(np_cos), ufunc(np_sin),
+                                            ufunc(np_angle))
+
 NP_LINALG = Namespace('np.linalg', {'norm': Builtin('np.linalg.norm', np_norm)})
 
 NP = Namespace('np', {
@@ -896,10 +907,23 @@ def str_method(eng, s, name):
 
 def nd_method(eng, arr, name):
     if name == 'T':
-        d = arr.data
-        if d and isinstance(d[0], list):
-            return NDArr([[d[i][j] for i in range(len(d))] for j in range(len(d[0]))])
-        return arr
+        import numpy as _np
+        sh = arr.shape
+        if len(sh) <= 1:
+            return arr
+        o = _np.empty(sh, dtype=object)
+        for ix in _np.ndindex(*sh):
+            v = arr.data
+            for k in ix:
+                v = v[k]
+            o[ix] = v
+        t = o.T
+
+        def tolist(a):
+            if a.ndim == 1:
+                return [a[k] for k in range(a.shape[0])]
+            return [tolist(a[k]) for k in range(a.shape[0])]
+        return NDArr(tolist(t))
     if name == 'any':
         return Builtin('ndarray.any', lambda e, a, k: b_or(*[e.truth(x) for x in flat(arr.data)]))
     if name == 'all':
@@ -1045,6 +1069,14 @@ def slist_getitem(eng, lst, idx):
 
 def nd_getitem(eng, arr, idx):
     d = arr.data
+    if isinstance(idx, NDArr):
+        if idx.shape == arr.shape:
+            # boolean-mask selection: modelled as the full array; it is only meaningful when the
+            # consumer is a store under the same mask (checked in setitem)
+            r = NDArr(mapnd(lambda v: v, arr.data))
+            r.masked_by = idx
+            return r
+        raise EngineError('fancy indexing of a small array')
     if isinstance(idx, tuple):
         cur = arr
         # support [..., k] and [:, k, :] on small arrays
@@ -1109,10 +1141,15 @@ def setitem(eng, base, idx, v):
                 return
             raise EngineError('ndarray tuple store')
         if isinstance(idx, NDArr):
-            # boolean-mask store
-            for k, m in enumerate(idx.data):
-                base.data[k] = ite(m, v, base.data[k]) if not isinstance(v, NDArr) else \
-                    ite(m, v.data[k], base.data[k])
+            # boolean-mask store (elementwise, any concrete shape)
+            if idx.shape != base.shape or (isinstance(v, NDArr) and v.shape != base.shape):
+                raise EngineError('mask store with mismatching shapes')
+
+            def rec(b, m, val):
+                if isinstance(b, list) and b and isinstance(b[0], list):
+                    return [rec(b[k], m[k], val[k] if isinstance(val, list) else val) for k in range(len(b))]
+                return [ite(m[k], val[k] if isinstance(val, list) else val, b[k]) for k in range(len(b))]
+            base.data = rec(base.data, idx.data, v.data if isinstance(v, NDArr) else v)
             eng.note_write(('nd', base))
             return
         base.data[norm_index(eng, idx, len(base.data))] = v.data if isinstance(v, NDArr) else v
